@@ -105,7 +105,7 @@ def svc_garbage(d, svc, n):
                    registered=svc is not None)
     elif len(rs) > 1:
         raise Violation("more-than-one-reply", n=len(rs))
-    if svc is None:
+    if svc is None and not reserved:
         for x in mine:
             if not (x["type"] == 6 and x["reason"] == 9):
                 d.flag(True, "unknown-service-not-rejected-as-unrecognized", type=x["type"], reason=x["reason"])
@@ -207,13 +207,14 @@ def layer_noise(d, n, first):
 def instances(tier):
     q = tier == "quick"
     out = []
-    n = 2 if q else 3
     svcs = sorted(A.confirmed_request_types)
+    impl = [12, 15, 14, 16]     # ReadProperty, WriteProperty, ReadPropertyMultiple, WritePropertyMultiple
     if q:
         # the services the device implements, plus a sample of the others; all of them in thorough
-        svcs = [12, 15, 14, 16, 5, 10, 18, 26, 6]
+        svcs = impl + [5, 10, 18, 26, 6]
     for s in svcs:
-        out.append(Inst(svc_garbage, dict(svc=s, n=n), budget=80 if q else 600, path_timeout=60,
+        n = (2 if s in impl else 1) if q else (3 if s in impl else 2)
+        out.append(Inst(svc_garbage, dict(svc=s, n=n), budget=80 if q else 900, path_timeout=60,
                         label="%s,n=%d" % (A.confirmed_request_types[s].__name__, n)))
     out.append(Inst(svc_garbage, dict(svc=None, n=1 if q else 2), budget=80 if q else 300, label="unregistered"))
     for service in VALID:
